@@ -112,6 +112,7 @@ Line ==
      [] e.k = "paddres" ->
           \* ... and must be the one observed
           (e.r = "ok") = (e.p \in pipes) /\ UNCHANGED vars /\ UNCH_T
+     [] e.k = "setrq" -> AtNow /\ SetRQ(e.n) /\ UNCH_T
      [] e.k = "prem" -> AtNow /\ RemovePipe(e.p) /\ UNCH_T
      [] e.k = "rv" -> AtNow /\ PeerReq(e.o, e.n, e.avail, e.hdr, e.tag) /\ UNCH_T
      [] e.k = "xs" ->
